@@ -2,7 +2,7 @@
 (* Bitcoin signed messages (C17): sign, recover, verify.                     *)
 (*                                                                           *)
 (* ECDSA with public-key recovery over the curve named by the constants of   *)
-(* EC.tla (P, A, B, Gx, Gy, N: a group of prime order N, cofactor 1),        *)
+(* MsgEC.tla (P, A, B, Gx, Gy, N: group of prime order N, cofactor 1),       *)
 (* transcribed from SEC 1 v2: 4.1.3 (signing), 4.1.4 (verifying), 4.1.6      *)
 (* (public key recovery), and from Bitcoin Core's compact signatures         *)
 (* (key.cpp SignCompact, pubkey.cpp RecoverCompact, util/message.cpp         *)
@@ -10,7 +10,7 @@
 (* toy curves that pycoin's generic Generator accepts; with N < P recovery   *)
 (* ids 2 and 3 (x = r + N) occur.  The digest e is an integer here; which    *)
 (* bytes are hashed is MsgText!DigestTerm.                                   *)
-EXTENDS EC, MsgText
+EXTENDS MsgEC, MsgText
 
 Scalars == 1..(N - 1)
 PubKey(d) == GMul(d)
@@ -21,7 +21,7 @@ NoKey == Inf                       \* "no public key": the point at infinity is 
 SignTry(d, e, k) ==
   LET R == GMul(k)
       r == R[1] % N
-      s == (InvN[k] * (((e % N) + ((d * r) % N)) % N)) % N
+      s == (InvN(k) * (((e % N) + ((d * r) % N)) % N)) % N
   IN [ok |-> r # 0 /\ s # 0, r |-> r, s |-> s,
       \* recovery id (SEC 1 4.1.6 / key.cpp): bit 0 = parity of R.y, bit 1 = R.x was reduced modulo N
       recid |-> (R[2] % 2) + (IF R[1] >= N THEN 2 ELSE 0), k |-> k]
@@ -35,26 +35,31 @@ Sign(d, e, k) == IF k \notin Scalars THEN [ok |-> FALSE, r |-> 0, s |-> 0, recid
 \* SEC 1 4.1.4
 EcdsaVerify(Q, e, r, s) ==
   /\ Q # Inf /\ r \in Scalars /\ s \in Scalars
-  /\ LET w == InvN[s]
+  /\ LET w == InvN(s)
          R == Add(GMul(((e % N) * w) % N), MulT((r * w) % N, Q))
      IN R # Inf /\ R[1] % N = r
 
 (* --------------------------------------------------------------- recovering *)
+\* Let({ e(v) : v \in {a} }) is "LET v == a IN e(v)" with a evaluated ONCE (TLC re-evaluates a LET
+\* definition or an operator argument at every use when it checks invariants).
+Let(S) == CHOOSE v \in S : TRUE
+
 \* SEC 1 4.1.6 with j = recid \div 2 and the y parity taken from recid % 2:
-\*   x = r + jN must be a field element (< P) and the abscissa of a point R;
-\*   Q = r^-1 (sR - eG); r and s must be in 1..N-1 (4.1.4 step 1); Q must be a valid key (not infinity).
-RecoverClass(e, r, s, recid) ==
-  IF r < 1 THEN "r_zero" ELSE IF r >= N THEN "r_ge_n"
-  ELSE IF s < 1 THEN "s_zero" ELSE IF s >= N THEN "s_ge_n"
-  ELSE LET x == r + (recid \div 2) * N IN
-       IF x >= P THEN "x_ge_p"
-       ELSE IF PointsForX(x) = <<>> THEN "no_point"
-       ELSE LET R == PointsForX(x)[(recid % 2) + 1] IN
-            IF MulT(InvN[r], Sub(MulT(s, R), GMul(e))) = Inf THEN "q_inf" ELSE "ok"
-Recover(e, r, s, recid) ==
-  IF RecoverClass(e, r, s, recid) # "ok" THEN NoKey
-  ELSE LET R == PointsForX(r + (recid \div 2) * N)[(recid % 2) + 1]
-       IN MulT(InvN[r], Sub(MulT(s, R), GMul(e)))
+\*   r and s must be in 1..N-1 (4.1.4 step 1);
+\*   x = r + jN must be a field element (< P) and the abscissa of a point R (parity selects R or -R);
+\*   Q = r^-1 (sR - eG) must be a valid key (not the point at infinity).
+\* [cls, Q]: cls names the reason when there is no key
+NoRec(cls) == [cls |-> cls, Q |-> NoKey]
+RecoverFull(e, r, s, recid) ==
+  IF r < 1 THEN NoRec("r_zero") ELSE IF r >= N THEN NoRec("r_ge_n")
+  ELSE IF s < 1 THEN NoRec("s_zero") ELSE IF s >= N THEN NoRec("s_ge_n")
+  ELSE IF r + (recid \div 2) * N >= P THEN NoRec("x_ge_p")
+  ELSE Let({ IF pts = <<>> THEN NoRec("no_point")
+             ELSE Let({ IF Q = Inf THEN NoRec("q_inf") ELSE [cls |-> "ok", Q |-> Q]
+                        : Q \in {MulT(InvN(r), Sub(MulT(s, pts[(recid % 2) + 1]), GMul(e)))} })
+             : pts \in {PointsForX(r + (recid \div 2) * N)} })
+RecoverClass(e, r, s, recid) == RecoverFull(e, r, s, recid).cls
+Recover(e, r, s, recid) == RecoverFull(e, r, s, recid).Q
 
 (* -------------------------------------------------- compact signature bytes *)
 \* who: [kind |-> "key", Q |-> point] or [kind |-> "addr", Q |-> point, comp |-> BOOLEAN]
@@ -62,18 +67,18 @@ Recover(e, r, s, recid) ==
 KeyOf(Q) == [kind |-> "key", Q |-> Q, comp |-> FALSE]
 AddrOf(Q, comp) == [kind |-> "addr", Q |-> Q, comp |-> comp]
 \* [ok, Q, comp, cls]: the key and form a 65-byte compact signature commits to for digest e
+\* (r, s: BEVal of bytes 2..33 and 34..65; -1 stands for a value >= 2^31, above every toy group order)
+RecoverCompactV(h, r, s, e) ==
+  IF ~HeaderOk(h) THEN [ok |-> FALSE, Q |-> NoKey, comp |-> FALSE, cls |-> "hdr_range"]
+  ELSE IF r < 0 THEN [ok |-> FALSE, Q |-> NoKey, comp |-> FALSE, cls |-> "r_ge_n"]
+  ELSE IF s < 0 THEN [ok |-> FALSE, Q |-> NoKey, comp |-> FALSE, cls |-> (IF r < 1 THEN "r_zero" ELSE IF r >= N THEN "r_ge_n" ELSE "s_ge_n")]
+  ELSE Let({ [ok |-> rf.cls = "ok", Q |-> rf.Q, comp |-> HeaderComp(h), cls |-> rf.cls]
+             : rf \in {RecoverFull(e, r, s, HeaderRecid(h))} })
 RecoverCompact(bytes, e) ==
-  LET h == bytes[1]
-      r == BEVal(SubSeq(bytes, 2, 33))
-      s == BEVal(SubSeq(bytes, 34, 65))
-  IN IF ~HeaderOk(h) THEN [ok |-> FALSE, Q |-> NoKey, comp |-> FALSE, cls |-> "hdr_range"]
-     ELSE IF r < 0 THEN [ok |-> FALSE, Q |-> NoKey, comp |-> FALSE, cls |-> "r_ge_n"]
-     ELSE IF s < 0 THEN [ok |-> FALSE, Q |-> NoKey, comp |-> FALSE, cls |-> (IF r < 1 THEN "r_zero" ELSE IF r >= N THEN "r_ge_n" ELSE "s_ge_n")]
-     ELSE LET c == RecoverClass(e, r, s, HeaderRecid(h)) IN
-          [ok |-> c = "ok", Q |-> Recover(e, r, s, HeaderRecid(h)), comp |-> HeaderComp(h), cls |-> c]
+  Let({ RecoverCompactV(bytes[1], r, s, e) : r \in {BEValAt(bytes, 1)}, s \in {BEValAt(bytes, 33)} })
 \* MessageVerify: recover, then compare with the key / with the address (key AND form)
 VerifyCompact(who, bytes, e) ==
-  LET rc == RecoverCompact(bytes, e) IN
+  \E rc \in {RecoverCompact(bytes, e)} :
   /\ rc.ok
   /\ rc.Q = who.Q
   /\ (who.kind = "addr" => rc.comp = who.comp)
@@ -81,6 +86,6 @@ VerifyCompact(who, bytes, e) ==
 TextClass(cs) == LET dec == B64Decode(cs) IN
                  IF ~dec.ok THEN "not_base64" ELSE IF Len(dec.v) # 65 THEN "wrong_length" ELSE "65"
 VerifyText(who, cs, e) ==
-  LET dec == B64Decode(cs) IN
+  \E dec \in {B64Decode(cs)} :
   dec.ok /\ Len(dec.v) = 65 /\ VerifyCompact(who, dec.v, e)
 =============================================================================
